@@ -56,6 +56,19 @@ def _mappy_dict_classes():
 # ---------------------------------------------------------------------------------------------
 
 def py_truth(I, v):
+    from .absx import AbsSeqList, AbsColl, AbsMap
+    if isinstance(v, AbsSeqList):
+        if v.head or v.tail:
+            return True
+        v = v.middle
+    if isinstance(v, AbsMap):
+        raise OutOfReach("truth value of a filtered comprehension over an abstract collection")
+    if isinstance(v, AbsColl):
+        if v.info.get("truthy"):
+            return True
+        if "length" in v.info:
+            return S.cmp(">", v.info["length"], 0)
+        raise OutOfReach("truth value of an abstract collection without a length ghost")
     if is_sym(v):
         return S.truthy(v)
     if isinstance(v, MDict):
@@ -124,6 +137,10 @@ def py_in(I, x, coll):
         if S.sort_of(x) != S.STR:
             raise PyRaise(TypeError, ("'in <string>' requires string as left operand",), "in")
         return S.contains(coll, x)
+    from .absx import AbsColl
+    if isinstance(coll, AbsColl):
+        # membership in a collection of unknown content: an unconstrained boolean
+        return I.ctx.fresh(S.BOOL, "member")
     if isinstance(coll, MDict):
         return mdict_contains(I, coll, x)
     if isinstance(coll, (dict, set, frozenset)) and not is_sym(x):
@@ -149,7 +166,11 @@ class KeysView(list):
 
 
 def py_iter(I, it):
-    from .absx import AbsColl
+    from .absx import AbsColl, AbsSeqList
+    if isinstance(it, AbsSeqList):
+        if not it.head and not it.tail:
+            return py_iter(I, it.middle)
+        raise OutOfReach("iteration over a list with an abstract run")
     if isinstance(it, AbsColl):
         raise OutOfReach(f"iteration over the abstract collection {it.name} without a loop contract")
     if isinstance(it, MDict):
@@ -213,6 +234,9 @@ _SORT_PYTYPE = {S.STR: str, S.INT: int, S.BOOL: bool, S.REAL: float}
 
 
 def pytype_of(v):
+    from .absx import AbsSeqList
+    if isinstance(v, AbsSeqList):
+        return v.pytype
     if is_sym(v):
         return _SORT_PYTYPE[v.sort]
     if isinstance(v, MDict):
@@ -247,10 +271,23 @@ def _mfind(I, d: MDict, key):
         if I.ctx.branch(c):
             return i
     if d.tail is not None:
-        # the explicit entries are, by the harness convention, all the keys in ``tail['explicit']``;
         # any other key may or may not be in the abstract tail
-        if not (not is_sym(key) and key in d.tail.get("absent", ())):
+        if not is_sym(key) and key in d.tail.get("absent", ()):
+            return None
+        lazy = d.tail.get("lazy")
+        if lazy is None:
             raise OutOfReach(f"lookup of {key!r} in a dict with an abstract tail")
+        for ka in d.tail.get("known_absent", []):
+            if I.ctx.branch(py_eq(I, ka, key)):
+                return None
+        # lazy refinement of an arbitrary dict state: the key is either among the unknown items (with a value
+        # supplied by the harness for that key) or it is not
+        present = I.ctx.fresh(S.BOOL, "present")
+        if I.ctx.branch(present):
+            d.entries.append([key, lazy(I.E, key)])
+            d.tail.setdefault("materialised", []).append(len(d.entries) - 1)
+            return len(d.entries) - 1
+        d.tail.setdefault("known_absent", []).append(key)
     return None
 
 
@@ -259,7 +296,9 @@ def mdict_contains(I, d, key):
         raise PyRaise(TypeError, ("unhashable type",), "in")
     key = d.fold(key)
     if d.tail is not None and not (not is_sym(key) and (key in d.tail.get("absent", ()) or any((not is_sym(k)) and k == key for k, _ in d.entries))):
-        raise OutOfReach(f"membership of {key!r} in a dict with an abstract tail")
+        if d.tail.get("lazy") is None:
+            raise OutOfReach(f"membership of {key!r} in a dict with an abstract tail")
+        return _mfind(I, d, key) is not None
     return S.or_(*[py_eq(I, k, key) for k, _ in d.entries])
 
 
@@ -476,9 +515,13 @@ def getattr_(I, obj, name, frame=None):
             # arguments may be symbolic
             return BoundModel(_SYM_STR_METHODS[name], obj, name)
     try:
-        return getattr(obj, name)
+        v = getattr(obj, name)
     except AttributeError as ex:
         raise PyRaise(AttributeError, ex.args, "getattr")
+    d = getattr(obj, "__dict__", None)
+    if isinstance(d, dict) and name in d and not inspect.ismodule(obj) and not inspect.isclass(obj):
+        I.ctx.reads.append((id(obj), name))
+    return v
 
 
 def super_getattr(I, sp: SuperProxy, name):
@@ -514,7 +557,52 @@ def super_getattr(I, sp: SuperProxy, name):
 _BASE_DICT_METHODS: dict = {}
 
 
+def _absseq_getitem(I, obj, key):
+    from .absx import AbsSeqList, AbsColl, first_of
+    n_mid = obj.middle.info["length"]
+    if isinstance(key, slice):
+        if key.step is not None:
+            raise OutOfReach("slice step on an abstract list")
+        lo = 0 if key.start is None else key.start
+        hi = key.stop
+        if is_sym(lo) or is_sym(hi):
+            raise OutOfReach("symbolic slice of an abstract list")
+        if lo < 0 or lo > len(obj.head):
+            raise OutOfReach("slice start inside the abstract run")
+        if hi is None:
+            return AbsSeqList(obj.head[lo:], obj.middle, obj.tail, obj.pytype)
+        if hi < 0 and -hi <= len(obj.tail):
+            return AbsSeqList(obj.head[lo:], obj.middle, obj.tail[:len(obj.tail) + hi], obj.pytype)
+        raise OutOfReach("slice end inside the abstract run")
+    if is_sym(key):
+        raise OutOfReach("abstract list indexed by a symbolic integer")
+    if key >= 0:
+        if key < len(obj.head):
+            return obj.head[key]
+        j = key - len(obj.head)
+        # inside the run, or past it into the tail: decided by the run's length
+        if I.ctx.branch(S.cmp(">", n_mid, j)):
+            if j == 0:
+                return first_of(I.E, obj.middle)
+            raise OutOfReach("index > 0 inside the abstract run")
+        # the run has at most j elements: only decidable when it is empty
+        if j == 0 or I.ctx.branch(S.eq(n_mid, 0)):
+            if not I.ctx.branch(S.eq(n_mid, 0)):
+                raise OutOfReach("index past a non-empty abstract run")
+            if j < len(obj.tail):
+                return obj.tail[j]
+            raise PyRaise(IndexError, ("list index out of range",), "[]")
+        raise OutOfReach("index past a non-empty abstract run")
+    k = -key
+    if k <= len(obj.tail):
+        return obj.tail[len(obj.tail) - k]
+    raise OutOfReach("negative index into the abstract run")
+
+
 def getitem(I, obj, key):
+    from .absx import AbsSeqList
+    if isinstance(obj, AbsSeqList):
+        return _absseq_getitem(I, obj, key)
     if isinstance(obj, MDict):
         return mdict_getitem(I, obj, key)
     if isinstance(obj, TokenM):
@@ -593,6 +681,9 @@ def delitem(I, obj, key):
 
 def m_len(I, x):
     from .absx import AbsColl
+    from .absx import AbsSeqList
+    if isinstance(x, AbsSeqList):
+        return x.length()
     if isinstance(x, AbsColl):
         if "length" in x.info:
             return x.info["length"]
